@@ -122,6 +122,7 @@ func c06(x *mon.Ctx) {
 	k := &c06Keys{root: world.NewKey(), inter: world.NewKey(), leaf: world.NewKey(), tcb: world.NewKey(), qe: world.NewKey(), p: world.RandPlatform(r)}
 	var cases []*world.Case
 	var farTwin *world.Case
+	ownTwin := map[*world.World][3]*world.Case{} // per original world: the same certificates and documents judged at Epoch, when everything is valid
 	add := func(w *world.World, lvl int, class, param, expect string) {
 		c := w.Case(lvl, class, param+"/"+[]string{"base", "coll", "crl"}[lvl])
 		c.Expect = expect
@@ -129,6 +130,11 @@ func c06(x *mon.Ctx) {
 			farTwin = c // the first case added is the all-far twin (same keys and names as every other case)
 		}
 		c.TwinRef = farTwin
+		// byte-identical certificates first verified while in date, then at the case's times through the same options value and
+		// the same pool: a verdict remembered for "this chain" must not outlive the chain's validity
+		if tw, ok := ownTwin[w.Root()]; ok && tw[lvl] != nil && (len(cases)%2 == 0 || class[:6] == "expiry") {
+			c.TwinRef = tw[lvl]
+		}
 		c.Form = mon.Forms[len(cases)%4]
 		cases = append(cases, c)
 	}
@@ -140,6 +146,7 @@ func c06(x *mon.Ctx) {
 	E := world.Epoch.Add(100 * world.Day)
 	for _, role := range c06Roles {
 		w := c06Build(k, r, map[string]world.Window{role: {NotBefore: world.Far.NotBefore, NotAfter: E}})
+		ownTwin[w.Root()] = [3]*world.Case{w.Case(0, "twin", "in-date/"+role), w.Case(1, "twin", "in-date/"+role), w.Case(2, "twin", "in-date/"+role)}
 		for lvl := c06Level[role]; lvl <= world.LCrl; lvl++ {
 			// (1) boundary grid at each governing entry
 			for _, g := range c06Gov[role] {
@@ -150,7 +157,8 @@ func c06(x *mon.Ctx) {
 					name string
 					off  time.Duration
 					exp  string
-				}{{"1s-before", -sec, "accept"}, {"at", 0, "accept"}, {"1s-after", sec, "reject"}} {
+				}{{"1s-before", -sec, "accept"}, {"at", 0, "accept"}, {"1s-after", sec, "reject"},
+					{"1ns-before", -time.Nanosecond, "accept"}, {"1ns-after", time.Nanosecond, "reject"}, {"500ms-after", 500 * time.Millisecond, "reject"}, {"999ms-after", 999 * time.Millisecond, "reject"}} {
 					w2 := w.Clone()
 					w2.Times[g] = E.Add(d.off)
 					add(w2, lvl, "expiry-boundary/"+role, fmt.Sprintf("%s@%s", d.name, timeNames[g]), d.exp)
@@ -202,6 +210,7 @@ func c06(x *mon.Ctx) {
 	S := world.Epoch.Add(-100 * world.Day)
 	for _, role := range c06NotBefore {
 		w := c06Build(k, r, map[string]world.Window{role: {NotBefore: S, NotAfter: world.Far.NotAfter}})
+		ownTwin[w.Root()] = [3]*world.Case{w.Case(0, "twin", "in-date/"+role), w.Case(1, "twin", "in-date/"+role), w.Case(2, "twin", "in-date/"+role)}
 		for lvl := c06Level[role]; lvl <= world.LCrl; lvl++ {
 			for _, g := range c06Gov[role] {
 				if (g == world.TTcbInfo || g == world.TQeIdentity) && lvl < world.LColl {
@@ -252,7 +261,7 @@ func c06(x *mon.Ctx) {
 	staleDefaultTime(x)
 	x.Require("twin", 3, 0, 3)
 	for _, role := range c06Roles {
-		x.Require("expiry-boundary/"+role, 2, 1, 3)
+		x.Require("expiry-boundary/"+role, 3, 4, 7)
 		x.Require("only-one-entry-past/"+role, 1, 1, 5)
 		x.Require("all-other-entries-past/"+role, 1, 0, 1)
 		x.Require("monotone-after-expiry/"+role, 0, 5, 5)
